@@ -195,7 +195,8 @@ theorem cleanCode_step (P : Prog) (c : Cfg) (hP : P.NoForge) (hH : HandlersOK c)
     all_goals try (split <;> try (clean_leaf; done))
     -- dispatch
     · have := clean_callH (s := ‹Sig›) hH ‹_›
-      simp [hrest, this]
+      simp only [final_ok, push_code, List.cons_append, List.nil_append, cleanCode_cons, this, hrest, and_true, true_and]
+      exact ⟨rfl, rfl⟩
     -- callH user
     · simp [hrest, Instr.clean, cleanCode_acts _ (hP.2 _ _)]
     -- identCheck
@@ -205,5 +206,23 @@ theorem cleanCode_step (P : Prog) (c : Cfg) (hP : P.NoForge) (hH : HandlersOK c)
     · simp [hrest, Instr.clean, cleanCode_acts _ (hP.1 _ _ _)]
     -- printWidget
     · simp [hrest, cleanCode_go]
+
+theorem cleanCode_reach {P : Prog} {c0 c : Cfg} (h0 : Started c0) (hU : UserHandlers c0) (hF : NoForge P c0)
+    (h : Reach P c0 c) : cleanCode c.code := by
+  refine reach_induction (I := fun c => cleanCode c.code) ?_ ?_ ?_ h
+  · intro ins hi
+    have hcode : ∃ init : List Act, c0.code = init.map Instr.act ++ [Instr.apprun] := by
+      obtain ⟨i, hs, q, sin, rfl⟩ := h0; exact ⟨i, rfl⟩
+    obtain ⟨init, hcode⟩ := hcode
+    rw [hcode] at hi
+    simp only [List.mem_append, List.mem_map, List.mem_singleton] at hi
+    rcases hi with ⟨a, ha, rfl⟩ | rfl
+    · have := hF.2 a (by rw [hcode]; simp [ha])
+      simp [Instr.clean, this]
+    · rfl
+  · intro c hr hi
+    exact cleanCode_step P c hF.1 (handlersOK_reach h0 hU hr) hi
+  · intro c c' _ hi hd
+    rw [deliver_code hd]; exact hi
 
 end Simpleline
